@@ -8,15 +8,13 @@ import (
 	"verifsim/sim/kern"
 )
 
-var epoch = orig.Unix(1700000000, 0)
-
 // Now returns the simulated time.
 func Now() Time {
 	if !kern.Active() {
 		return orig.Now()
 	}
 	r := kern.Call(kern.Req{Op: kern.OpNow})
-	return epoch.Add(Duration(r.A))
+	return orig.Unix(0, kern.EpochNano()).Add(Duration(r.A))
 }
 
 // Since returns the simulated time elapsed since t.
